@@ -1,0 +1,102 @@
+//go:build verif
+
+// Contracts for the frame writers (frame.go) and their round trip with the parsers, checked by /verif/govc.
+package http2
+
+//@ globalinv [C19:writer-sentinel-errors-set] errStreamID != nil && errDepStreamID != nil
+//@ -- wire image of a frame header and of big-endian integers
+//@ pure func enc32(v int) seq[byte] = seq[byte]{v / 16777216 % 256, v / 65536 % 256, v / 256 % 256, v % 256}
+//@ pure func enc16(v int) seq[byte] = seq[byte]{v / 256 % 256, v % 256}
+//@ pure func enc24(v int) seq[byte] = seq[byte]{v / 65536 % 256, v / 256 % 256, v % 256}
+//@ pure func hdrBytes(length int, t int, flags int, sid int) seq[byte] = enc24(length) ++ seq[byte]{t, flags} ++ enc32(sid)
+//@ lemma [C19:be32-inverts-enc32] rt32(v int) = 0 <= v && v <= 4294967295 ==> be32(enc32(v)) == v
+//@ lemma [C19:be16-inverts-enc16] rt16(v int) = 0 <= v && v <= 65535 ==> be16(enc16(v)) == v
+//@ -- what readFrameHeader's contract computes from the nine header octets, applied to hdrBytes
+//@ lemma [C19:header-round-trip] rtHdr(length int, t int, flags int, sid int) = 0 <= length && length < 16777216 && 0 <= t && t < 256 && 0 <= flags && flags < 256 && 0 <= sid && sid < 2147483648 ==> hdrBytes(length, t, flags, sid)[0]*65536 + hdrBytes(length, t, flags, sid)[1]*256 + hdrBytes(length, t, flags, sid)[2] == length && hdrBytes(length, t, flags, sid)[3] == t && hdrBytes(length, t, flags, sid)[4] == flags && be32(hdrBytes(length, t, flags, sid)[5:9]) % 2147483648 == sid && len(hdrBytes(length, t, flags, sid)) == 9
+
+//@ func (*Framer).startWrite :: f, ftype, flags, streamID
+//@   props C19
+//@   requires f != nil
+//@   assigns f.wbuf
+//@   ensures [C19:header-image-with-length-to-be-filled] f.wbuf == hdrBytes(0, ftype, flags, streamID)
+
+//@ func (*Framer).writeByte :: f, v
+//@   props C19
+//@   requires f != nil
+//@   assigns f.wbuf
+//@   ensures f.wbuf == old(f.wbuf) ++ seq[byte]{v}
+//@ func (*Framer).writeBytes :: f, v
+//@   props C19
+//@   requires f != nil
+//@   assigns f.wbuf
+//@   ensures f.wbuf == old(f.wbuf) ++ v
+//@ func (*Framer).writeUint16 :: f, v
+//@   props C19
+//@   requires f != nil
+//@   assigns f.wbuf
+//@   ensures f.wbuf == old(f.wbuf) ++ enc16(v)
+//@ func (*Framer).writeUint32 :: f, v
+//@   props C19
+//@   requires f != nil
+//@   assigns f.wbuf
+//@   ensures f.wbuf == old(f.wbuf) ++ enc32(v)
+
+//@ func (*Framer).endWrite :: f -> err
+//@   props C19,C10
+//@   requires f != nil && f.w != nil && len(f.wbuf) >= 9
+//@   requires [C19:debug-logging-off] !f.logWrites
+//@   assigns f.wbuf, written(f.w)
+//@   ensures [C19:frame-too-large-refused] len(old(f.wbuf)) - 9 >= 16777216 ==> err == ErrFrameTooLarge && written(f.w) == old(written(f.w))
+//@   ensures [C19:length-filled-in-and-one-write] len(old(f.wbuf)) - 9 < 16777216 && err == nil ==> written(f.w) == old(written(f.w)) ++ enc24(len(old(f.wbuf)) - 9) ++ old(f.wbuf)[3:]
+
+//@ func (*Framer).WritePing :: f, ack, data -> err
+//@   props C19
+//@   requires f != nil && f.w != nil && !f.logWrites
+//@   assigns f.wbuf, written(f.w)
+//@   ensures [C19:ping-wire-image] err == nil ==> written(f.w) == old(written(f.w)) ++ hdrBytes(8, 6, ite(ack, 1, 0), 0) ++ data
+
+//@ func (*Framer).WriteSettingsAck :: f -> err
+//@   props C19
+//@   requires f != nil && f.w != nil && !f.logWrites
+//@   assigns f.wbuf, written(f.w)
+//@   ensures [C19:settings-ack-wire-image] err == nil ==> written(f.w) == old(written(f.w)) ++ hdrBytes(0, 4, 1, 0)
+
+//@ func (*Framer).WriteWindowUpdate :: f, streamID, incr -> err
+//@   props C19
+//@   requires f != nil && f.w != nil && !f.logWrites
+//@   assigns f.wbuf, written(f.w)
+//@   ensures [C19:illegal-increment-not-written] (incr < 1 || incr > 2147483647) && !f.AllowIllegalWrites ==> err != nil && written(f.w) == old(written(f.w))
+//@   ensures [C19:window-update-wire-image] err == nil ==> written(f.w) == old(written(f.w)) ++ hdrBytes(4, 8, 0, streamID) ++ enc32(incr)
+
+//@ func (*Framer).WriteRSTStream :: f, streamID, code -> err
+//@   props C19
+//@   requires f != nil && f.w != nil && !f.logWrites
+//@   assigns f.wbuf, written(f.w)
+//@   ensures [C19:invalid-stream-id-not-written] (streamID == 0 || streamID >= 2147483648) && !f.AllowIllegalWrites ==> err != nil && written(f.w) == old(written(f.w))
+//@   ensures [C19:rst-stream-wire-image] err == nil ==> written(f.w) == old(written(f.w)) ++ hdrBytes(4, 3, 0, streamID) ++ enc32(code)
+
+//@ func (*Framer).WritePriority :: f, streamID, p -> err
+//@   props C19
+//@   requires f != nil && f.w != nil && !f.logWrites
+//@   assigns f.wbuf, written(f.w)
+//@   ensures [C19:invalid-stream-id-not-written] ((streamID == 0 || streamID >= 2147483648) && !f.AllowIllegalWrites) || p.StreamDep >= 2147483648 ==> err != nil && written(f.w) == old(written(f.w))
+//@   ensures [C19:priority-wire-image] err == nil ==> written(f.w) == old(written(f.w)) ++ hdrBytes(5, 2, 0, streamID) ++ enc32(p.StreamDep + ite(p.Exclusive, 2147483648, 0)) ++ seq[byte]{p.Weight}
+
+//@ func (*Framer).WriteGoAway :: f, maxStreamID, code, debugData -> err
+//@   props C19
+//@   requires f != nil && f.w != nil && !f.logWrites
+//@   assigns f.wbuf, written(f.w)
+//@   ensures [C19:goaway-wire-image] err == nil ==> written(f.w) == old(written(f.w)) ++ hdrBytes(8 + len(debugData), 7, 0, 0) ++ enc32(maxStreamID % 2147483648) ++ enc32(code) ++ debugData
+
+//@ -- round trip: what the PRIORITY parser's contract extracts from the payload WritePriority produces
+//@ lemma [C19:priority-round-trip] rtPriority(dep int, excl bool, w int) using rt32 = 0 <= dep && dep < 2147483648 && 0 <= w && w < 256 ==> be32(enc32(dep + ite(excl, 2147483648, 0)) ++ seq[byte]{w}) % 2147483648 == dep && (be32(enc32(dep + ite(excl, 2147483648, 0)) ++ seq[byte]{w}) >= 2147483648 <==> excl) && (enc32(dep + ite(excl, 2147483648, 0)) ++ seq[byte]{w})[4] == w && len(enc32(dep + ite(excl, 2147483648, 0)) ++ seq[byte]{w}) == 5
+//@ lemma [C19:window-update-round-trip] rtWindowUpdate(incr int) using rt32 = 1 <= incr && incr <= 2147483647 ==> be32(enc32(incr)) % 2147483648 == incr && len(enc32(incr)) == 4
+
+//@ pure func setBytes(ss seq[Setting], n int) seq[byte] = ite(n <= 0, seq[byte]{}, setBytes(ss, n-1) ++ enc16(ss[n-1].ID) ++ enc32(ss[n-1].Val))
+//@ func (*Framer).WriteSettings :: f, settings -> err
+//@   props C19
+//@   requires f != nil && f.w != nil && !f.logWrites
+//@   assigns f.wbuf, written(f.w)
+//@   ensures [C19:settings-wire-image] err == nil ==> written(f.w) == old(written(f.w)) ++ enc24(6 * len(settings)) ++ seq[byte]{4, 0} ++ enc32(0) ++ setBytes(settings, len(settings))
+//@   loop 1 invariant -1 <= rangeindex && rangeindex < len(settings) || (rangeindex == -1 && len(settings) == 0)
+//@   loop 1 invariant f.wbuf == hdrBytes(0, 4, 0, 0) ++ setBytes(settings, rangeindex + 1) && len(setBytes(settings, rangeindex + 1)) == 6 * (rangeindex + 1)
